@@ -203,6 +203,9 @@ class BranchMetadata:
         self.expiry = execution_timestamp + timeout
         self.context = template_context
         self.results = {}
+        # Set when the execution has ended but this metadata is retained to
+        # absorb late events of its terminated branches.
+        self.execution_ended = False
 
 class StateEngine(object):
     def __init__(self, config):
@@ -753,6 +756,10 @@ class StateEngine(object):
         """
         if execution_failed and execution_arn in self.branch_metadata:
             self.check_pending_results(execution_arn)
+            if execution_arn in self.branch_metadata:
+                # Retained for late events, the timeout backstop must just
+                # discard it rather than end this execution a second time.
+                self.branch_metadata[execution_arn].execution_ended = True
 
     def update_execution_history(
             self, state_machine, execution_arn, update_type, details
@@ -1228,7 +1235,7 @@ class StateEngine(object):
             If branch_metadata.expiry is zero we therefore force deletion of
             self.branch_metadata[execution_arn] and move on.
             """
-            if branch_metadata.expiry == 0:
+            if branch_metadata.expiry == 0 or branch_metadata.execution_ended:
                 del self.branch_metadata[execution_arn]
                 continue
 
